@@ -6,10 +6,12 @@
    Model/SLane.v; each dq_state transition in it IS the body regenerated from the source (Gen_dqstate).
    `_partial`: the full property also quantifies over dispatch_sync / barrier / async_and_wait / group_async, over
    concurrent and chained queues, and over thread-pool growth; those are covered by the files named in
-   DESIGN.md §6 (SyncWait, CLane, RootQ) or by the stress oracle only.  Fair termination is not proved: the
-   theorems below say no state is stuck and nothing is left behind when the system is quiescent. *)
+   DESIGN.md §7 (SyncWait, CLane, RootQ) or by the stress oracle only.  Termination is proved in the form: every
+   action other than a new submission consumes a potential that a submission raises by a constant (no livelock),
+   no state is stuck, and a state where nothing is enabled has run everything; that the OS schedules enabled threads
+   and that the pool supplies a worker when the lane sits in the root queue are outside the model (RootQ). *)
 From Coq Require Import ZArith Bool List.
-From Verif Require Import Word Conc SLane SLane_proofs SLane_progress.
+From Verif Require Import Word Conc SLane SLane_proofs SLane_progress SLane_measure.
 Import ListNotations.
 Local Open Scope Z_scope.
 
@@ -45,6 +47,22 @@ Theorem C01_slane_async_never_blocks_partial : forall rb s t,
   0 <= rb < 2 -> reach rb s -> qos_of (pcs s t) <> None \/ pcs s t = PA_rootpush -> enabled s t.
 Proof. exact async_never_blocks. Qed.
 Print Assumptions C01_slane_async_never_blocks_partial.
+
+(* no livelock: along any execution, the number of actions that are not new submissions is bounded by the potential of
+   the start state plus 32 per submission (the DIRTY retry loop, the try_lock restart and every wait are paid for) *)
+Theorem C01_slane_no_livelock_partial : forall L rb s acts s',
+  NoDup L -> 0 <= rb < 2 -> reach rb s -> forallb act_valid acts = true -> (forall a, In a acts -> In (act_tid a) L) ->
+  run s acts = Some s' -> n_other acts <= Phi L s + 32 * n_async acts.
+Proof. exact no_livelock. Qed.
+Print Assumptions C01_slane_no_livelock_partial.
+
+(* the end of every maximal execution: when no thread can step and the lane sits in no queue, every submitted item has
+   run exactly once, in order (and if it does sit in the root queue, an idle worker can pick it up) *)
+Theorem C01_slane_nothing_enabled_all_done_partial : forall rb s,
+  0 <= rb < 2 -> reach rb s -> (forall t, valid_tid t -> gstep s t = None) -> rootq s = 0 ->
+  lst s = [] /\ rev (started s) = zrange (nextid s) /\ running s = None.
+Proof. exact nothing_enabled_all_done. Qed.
+Print Assumptions C01_slane_nothing_enabled_all_done_partial.
 
 (* the invariant behind all of it (enqueued-token uniqueness, lock shape, the DIRTY hand-shake) *)
 Theorem C01_slane_invariant_partial : forall rb s, 0 <= rb < 2 -> reach rb s -> Inv s.
